@@ -579,17 +579,21 @@ theorem limits_step (cfg : LCfg) (s : LSt) (op : LOp) : LimitsOk cfg.layers (lre
           refine ⟨hwithin, ?_⟩
           intro he
           simp only [hr, hc, Bool.not_true, Bool.false_eq_true, if_false] at hok ⊢
+          have hset : (setValue cfg y { s with evs := [], exc := none }).value = y ∧
+              Within (limitsOf cfg (setValue cfg y { s with evs := [], exc := none }))
+                (setValue cfg y { s with evs := [], exc := none }).value := by
+            rw [setValue_value, setValue_limits]; exact ⟨rfl, hwithin⟩
           unfold echoes at he
           by_cases hW : cfg.hasW = true
           · simp only [hW, if_true] at hok ⊢
             simp only [hW, Bool.not_true, Bool.false_or, Bool.or_eq_true, beq_iff_eq] at he
             rcases he with he | he
-            · subst he; exact ⟨rfl, hwithin⟩
+            · subst he; exact hset
             · subst he
               simp only [hr, if_true] at hok ⊢
-              exact ⟨rfl, hwithin⟩
+              exact hset
           · simp only [hW, Bool.false_eq_true, if_false]
-            exact ⟨rfl, hwithin⟩
+            exact hset
         · simp [hr, hc] at hok
       · simp [hr, lfail] at hok
     | writeMin y => simp [lrecOf] at hw
@@ -626,19 +630,20 @@ inside every limit parameter current at that moment (and with a driver that take
 limits afterwards) whenever the automatic check applies (`AutoApplies`: some class that defines a limit parameter first has
 no `check_<p>` of its own, and no programmer's check before it in MRO order returned `True`) — in particular a `check_<p>`
 inherited from a class further down never switches the limits off; a write of an inverted `<p>_limits` pair is refused and
-leaves the limits as they were. -/
-theorem limits_enforced (cfg : LCfg) (v0 : Val) (pre : List LOp) (op : LOp) :
-    LimitsOk cfg.layers (lrecOf cfg (lexec cfg (linit cfg v0) pre) op) :=
+leaves the limits as they were.  With and without omission of unchanged updates (`cfg.omitUnch`), whatever `readerror` flags
+the parameters start with. -/
+theorem limits_enforced (cfg : LCfg) (v0 : Val) (e1 e2 e3 e4 : Bool) (pre : List LOp) (op : LOp) :
+    LimitsOk cfg.layers (lrecOf cfg (lexec cfg (linit cfg v0 e1 e2 e3 e4) pre) op) :=
   limits_step cfg _ op
 
 /-- **limits_enforced_plain** — the common case spelled out: when no class of the hierarchy defines a `check_<p>` of
 its own, every accepted write is inside all limit parameters that exist (there is at least one), whatever the classes
 they are declared in. -/
-theorem limits_enforced_plain (cfg : LCfg) (v0 : Val) (pre : List LOp) (x : Val) (c : List CRes) (w : WRes Val)
+theorem limits_enforced_plain (cfg : LCfg) (v0 : Val) (e1 e2 e3 e4 : Bool) (pre : List LOp) (x : Val) (c : List CRes) (w : WRes Val)
     (hown : ∀ l ∈ cfg.layers, l.ownCheck = false)
     (hlim : (cfg.hasMin || cfg.hasMax || cfg.hasLimits) = true)
-    (hok : (lstep1 cfg (lexec cfg (linit cfg v0) pre) (.write x c w)).ok = true) :
-    Within (limitsOf cfg (lexec cfg (linit cfg v0) pre)) x := by
+    (hok : (lstep1 cfg (lexec cfg (linit cfg v0 e1 e2 e3 e4) pre) (.write x c w)).ok = true) :
+    Within (limitsOf cfg (lexec cfg (linit cfg v0 e1 e2 e3 e4) pre)) x := by
   have hnone : ∀ (layers : List Layer) (i : Nat) (lim : Bool), (∀ l ∈ layers, l.ownCheck = false) →
       (runChecks lim c layers i).stopAt = none := by
     intro layers
@@ -687,8 +692,8 @@ theorem limits_enforced_plain (cfg : LCfg) (v0 : Val) (pre : List LOp) (x : Val)
             exact List.getElem_mem hb'
           have := (List.any_eq_false.1 hf) _ hm
           simpa using this
-  have happ : AutoApplies cfg.layers (lrecOf cfg (lexec cfg (linit cfg v0) pre) (.write x c w)).stopAt := by
-    have hst : (lrecOf cfg (lexec cfg (linit cfg v0) pre) (.write x c w)).stopAt = none := hnone _ _ _ hown
+  have happ : AutoApplies cfg.layers (lrecOf cfg (lexec cfg (linit cfg v0 e1 e2 e3 e4) pre) (.write x c w)).stopAt := by
+    have hst : (lrecOf cfg (lexec cfg (linit cfg v0 e1 e2 e3 e4) pre) (.write x c w)).stopAt = none := hnone _ _ _ hown
     rw [hst]
     have hownAt : ∀ a, (cfg.layers.getD a default).ownCheck = false := by
       intro a
